@@ -75,3 +75,59 @@ Proof.
     + rewrite (IH m fields fields' Hnd Hp); [reflexivity|].
       destruct Ht as [Ht|Ht]; [left|now right]. cbn [typed_at] in Ht. now rewrite A in Ht.
 Qed.
+
+(* ---- what cleaning removes and what it leaves (C01, layer "scrub") ---- *)
+Lemma assoc_remove_key k k' (o : list (string * json)) :
+  assoc k (remove_key k' o) = if k' =? k then None else assoc k o.
+Proof.
+  induction o as [|[k0 v] t IH]; cbn; [now destruct (k' =? k)|].
+  destruct (k0 =? k') eqn:E0.
+  - rewrite IH. apply String.eqb_eq in E0. subst k0. destruct (k' =? k); reflexivity.
+  - cbn. destruct (k0 =? k) eqn:E1; [|exact IH].
+    destruct (k' =? k) eqn:E2; [|reflexivity].
+    apply String.eqb_eq in E1. apply String.eqb_eq in E2. subst. rewrite String.eqb_refl in E0. discriminate.
+Qed.
+
+Lemma assoc_remove_keys ks : forall k (o : list (string * json)),
+  assoc k (remove_keys ks o) = if existsb (fun x => x =? k) ks then None else assoc k o.
+Proof.
+  induction ks as [|x t IH]; intros k o; cbn; [reflexivity|].
+  unfold remove_keys in *. cbn [fold_left]. rewrite IH, assoc_remove_key.
+  destruct (x =? k); cbn; [now destruct (existsb _ t)|reflexivity].
+Qed.
+
+(* at the object the path ends at: exactly the picked helper fields disappear, every other member is untouched *)
+Theorem clean_here_removes_exactly_the_helpers fields o k :
+  assoc k (fst (clean [] fields o)) = if existsb (fun x => x =? k) (pick_fields o fields) then None else assoc k o.
+Proof. cbn. apply assoc_remove_keys. Qed.
+
+Lemma assoc_assoc_set_ne {V} k k' (v : V) o : k' <> k -> assoc k (assoc_set k' v o) = assoc k o.
+Proof.
+  intros Hne. induction o as [|[k0 v0] t IH]; cbn.
+  - now rewrite (proj2 (String.eqb_neq k' k) Hne).
+  - destruct (k0 =? k') eqn:E; cbn.
+    + apply String.eqb_eq in E. subst k0. now rewrite (proj2 (String.eqb_neq k' k) Hne).
+    + destruct (k0 =? k); [reflexivity|exact IH].
+Qed.
+
+(* along the path: members of the enclosing objects other than the path component are untouched *)
+Theorem clean_leaves_other_members p rest fields o k : k <> p ->
+  assoc k (fst (clean (p :: rest) fields o)) = assoc k o.
+Proof.
+  intros Hne. cbn [clean]. destruct (assoc p o) as [[| | | |l|m|]|]; try reflexivity.
+  - set (cl := map _ l). destruct (forallb snd cl && negb (is_empty l)); cbn [fst].
+    + rewrite assoc_remove_key. rewrite (proj2 (String.eqb_neq p k)) by congruence. apply assoc_assoc_set_ne. congruence.
+    + apply assoc_assoc_set_ne. congruence.
+  - destruct (clean rest fields m) as [m' rm]. destruct rm; cbn [fst].
+    + rewrite assoc_remove_key. rewrite (proj2 (String.eqb_neq p k)) by congruence. apply assoc_assoc_set_ne. congruence.
+    + apply assoc_assoc_set_ne. congruence.
+Qed.
+
+(* a helper registered under a type the object does not have is NOT removed: the leak of listed finding
+   C01-node-fragment-in-object (helper registered under the abstract type Node, object says it is a Pet) *)
+Theorem helper_under_other_type_leaks :
+  exists fields o, assoc "__typename" (fst (clean [] fields o)) <> None /\ existsb (fun e => existsb (String.eqb "__typename") (snd e)) fields = true.
+Proof.
+  exists [("Node", ["__typename"])], [("__typename", JStr "Pet"); ("id", JStr "p1"); ("kind", JStr "cat")].
+  split; [cbn; discriminate|reflexivity].
+Qed.
